@@ -168,6 +168,7 @@ def r05_2(prog, out):
 
 
 @rule("C05", "R05.3", "the new deadline is (time of the call) + N", floor=3)
+@rule("C03", "R05.3", "the new deadline is (time of the call) + N", floor=3)
 def r05_3(prog, out):
     A = prog.anchors
     sl = Slicer(prog)
@@ -181,6 +182,11 @@ def r05_3(prog, out):
             key = "deadline:%s" % prog.short(bid)
             adds = [c for c in s.calls if c.startswith("<tokio::time::Instant as std::ops::Add")]
             subs = [c for c in s.calls if "std::ops::Sub" in c or "checked_sub" in c]
+            memo = sorted(c.split("::")[-1] for c in s.calls if c.split("::")[-1] in ("get_or_insert_with", "get_or_insert", "get_or_init", "or_insert_with", "or_insert"))
+            if memo:
+                out.violation(key, bi.loc(bb), "the deadline of a modification is taken from a value cached across the elements of the request (%s): later entries get the "
+                              "deadline computed for an earlier entry's seconds" % memo[0])
+                continue
             if subs:
                 out.violation(key, bi.loc(bb), "the new deadline is computed with a subtraction (%s)" % subs[0])
             elif adds and A.ty("AckDeadline") + "::new" in s.calls:
